@@ -150,6 +150,8 @@ class Normaliser:
                     vset = True
                 else:
                     attrs.append("%s=%s" % (key, fmt_scalar(val)))
+        if t == "Identifier" and "ctxt" not in d:
+            attrs.append("name")      # an IdentName: property / key name, not a variable occurrence
         if t == "Identifier" and self.rp and node["v"].startswith(self.rp):
             attrs.append("rp")
         if t == "StringLiteral":
